@@ -114,6 +114,9 @@ def run_workflow(ctx, case, via, index):
         ['rise', db],
         ['recession', db],
     ]
+    verbosity = index % 4
+    if verbosity:
+        steps = [argv + ['-' + 'v' * verbosity, '--logfile', os.path.join(ctx.workdir, 'p{}.log'.format(index))] for argv in steps]
     log = []
     for argv in steps:
         if via == 'subprocess':
